@@ -9,6 +9,7 @@ pub struct Entry {
     pub line: u32,
     pub ns: &'static [usize],
     pub has_when: bool,
+    pub has_times: bool,
     pub aborts_on_panic: bool,
     pub mk: fn(usize) -> (FuncPtr, CallCountVerifier),
     pub target_ptr: fn() -> FuncPtr,
@@ -151,6 +152,64 @@ fn main() {
                 writeln!(out, "armrun {} {} {} |{} DIED sig={} code={}", e.line, n, sstr, s, sig, code).unwrap();
             } else {
                 writeln!(out, "armrun {} {} {} |{}", e.line, n, sstr, s).unwrap();
+            }
+        }
+        if e.has_times {
+            // the budget under concurrent callers: 8 threads make exactly `times` matching calls in
+            // total, none may be refused and the scope-exit verdict must be silent.  (No over-call is
+            // made, so arms whose fake cannot unwind are driven the same way.)
+            const BIG: usize = 400000;
+            const T: usize = 8;
+            let (s, code, sig) = in_child(|w| {
+                let mut inj = InjectorPP::new();
+                let inst = {
+                    let injr = &mut inj;
+                    quiet_catch(std::panic::AssertUnwindSafe(move || injr.when_called((e.target_ptr)()).will_execute((e.mk)(BIG))))
+                };
+                if inst.is_err() {
+                    w.write_all(b" inst=other").unwrap();
+                    return;
+                }
+                let bar = std::sync::Arc::new(std::sync::Barrier::new(T));
+                let call = e.call;
+                let hs: Vec<_> = (0..T)
+                    .map(|_| {
+                        let bar = bar.clone();
+                        std::thread::spawn(move || {
+                            bar.wait();
+                            let mut refused = 0usize;
+                            for _ in 0..BIG / T {
+                                let mut o = 0i32;
+                                let r = {
+                                    let oo = &mut o;
+                                    quiet_catch(std::panic::AssertUnwindSafe(move || call(7, oo)))
+                                };
+                                if r.is_err() {
+                                    refused += 1;
+                                }
+                            }
+                            refused
+                        })
+                    })
+                    .collect();
+                let refused: usize = hs.into_iter().map(|h| h.join().unwrap_or(1)).sum();
+                let ex = match quiet_catch(std::panic::AssertUnwindSafe(move || drop(inj))) {
+                    Ok(()) => "ok".to_string(),
+                    Err(m) => {
+                        let nums: Vec<&str> = m.split(|c: char| !c.is_ascii_digit()).filter(|s| !s.is_empty()).collect();
+                        if m.contains("expected to be called") && nums.len() == 2 {
+                            format!("mismatch:{}:{}", nums[0], nums[1])
+                        } else {
+                            "other".to_string()
+                        }
+                    }
+                };
+                w.write_all(format!(" refused={} exit={}", refused, ex).as_bytes()).unwrap();
+            });
+            if sig != 0 || code != 0 {
+                writeln!(out, "armhammer {} {} {} |{} DIED sig={} code={}", e.line, BIG, T, s, sig, code).unwrap();
+            } else {
+                writeln!(out, "armhammer {} {} {} |{}", e.line, BIG, T, s).unwrap();
             }
         }
     }
